@@ -217,7 +217,7 @@ def loop_components(loop: ast.For):
     return None
 
 
-def value_at(block: Sequence[ast.stmt], use_stmt: ast.stmt, expr, seeds=()) -> Optional[ast.expr]:
+def value_at(block: Sequence[ast.stmt], use_stmt: ast.stmt, expr, seeds=(), keep=()) -> Optional[ast.expr]:
     """The expression `expr` denotes at `use_stmt`, with every local that is (re-)assigned by a top-level statement
     of `block` before `use_stmt` replaced by its defining expression (sequentially, so `e = f(e)` composes).
     Statements nested in the block that contain use_stmt are looked through along the path to it.  Returns None
@@ -277,7 +277,9 @@ def value_at(block: Sequence[ast.stmt], use_stmt: ast.stmt, expr, seeds=()) -> O
                     if isinstance(sub, list) and any(x is use_stmt or contains(x, use_stmt) for x in sub):
                         return walk_block(sub)
                 return True
-            if isinstance(s_, ast.Assign) and len(s_.targets) == 1 and isinstance(s_.targets[0], ast.Name):
+            if isinstance(s_, ast.Assign) and len(s_.targets) == 1 and isinstance(s_.targets[0], ast.Name) and s_.targets[0].id in keep:
+                pass  # a name the caller's rule speaks about stays a name
+            elif isinstance(s_, ast.Assign) and len(s_.targets) == 1 and isinstance(s_.targets[0], ast.Name):
                 env[s_.targets[0].id] = Sub().visit(_copy.deepcopy(s_.value))
             elif (
                 isinstance(s_, ast.Assign)
